@@ -109,7 +109,7 @@ func (e *Exec) deepEq(a, b Value) *smt.Term {
 		return e.deepEq(x.Val, y.Val)
 	case Opaque:
 		y := b.(Opaque)
-		if x.Kind == "time" {
+		if x.Kind == "time" || x.Kind == "timelocal" {
 			return smt.Eq(x.Data.(*smt.Term), y.Data.(*smt.Term))
 		}
 		return smt.True
